@@ -116,7 +116,9 @@ Rx ==
        /\ lastRx' = IF restart THEN e.t ELSE lastRx
        /\ lastRestart' = IF restart THEN e.t ELSE lastRestart
        /\ pto3r' = IF restart THEN e.pto3 ELSE pto3r
-       /\ idleR' = IF restart THEN e.pidle ELSE idleR
+       \* the negotiated timeout may change while the packets of this datagram are processed
+       \* (peer parameters arrive): then nothing is demanded until the next restart
+       /\ idleR' = IF restart THEN (IF e.pidle = e.idle THEN e.idle ELSE -1) ELSE idleR
        /\ aeSinceRx' = IF e.authed > 0 THEN FALSE ELSE aeSinceRx
   /\ started' = TRUE
   /\ UNCHANGED <<t0, hostile, late, cur, mustAnnounce>>
